@@ -198,12 +198,12 @@ class RealRun(Harness):
     BAD = ['refused', 'unresolvable', 'silent', 'early-close', 'bad-block-size', 'truncated-kexinit', 'garbage-kexinit', 'probe-garbage', 'type-byte-only-kexinit', 'probe-type-byte-only',
            'ssh1-fallback']
 
-    def __init__(self, bad, pos, json):
-        self.bad, self.pos, self.json = bad, pos, json
-        self.name = 'realrun-%s-at%d-%s' % (bad, pos, 'json' if json else 'text')
+    def __init__(self, bad, pos, json, verbose=False):
+        self.bad, self.pos, self.json, self.verbose = bad, pos, json, verbose
+        self.name = 'realrun-%s-at%d-%s%s' % (bad, pos, 'json' if json else 'text', '-v' if verbose else '')
 
     def params(self):
-        return {'bad': self.bad, 'pos': self.pos, 'json': self.json}
+        return {'bad': self.bad, 'pos': self.pos, 'json': self.json, 'verbose': self.verbose}
 
     def inputs(self):
         x = zx.fresh_bytes('x', 1)
@@ -264,6 +264,7 @@ class RealRun(Harness):
         net = Net([])
         aconf = M.auditconf.AuditConf('', 22)
         aconf.json = self.json
+        aconf.verbose = self.verbose          # -v: status lines must stay out of a JSON run's stdout, in main() and in every worker
         aconf.skip_rate_test = True
         aconf.colors = False
         aconf.target_list = list(hosts)
@@ -354,6 +355,9 @@ def tasks(tier):
         for pos in (0, 1):
             for json in (False, True):
                 T.append(RealRun(bad, pos, json))
+    for bad in ('refused', 'early-close', 'probe-garbage'):
+        T.append(RealRun(bad, 1, True, verbose=True))      # (in text mode -v status lines between the blocks are intended)
+        T.append(RealRun(bad, 0, True, verbose=True))
     return T
 
 
@@ -365,7 +369,7 @@ def harness_by_name(name, params):
     if k == 'containment':
         return Containment(p['esc'])
     if k == 'realrun':
-        return RealRun(p['bad'], p['pos'], p['json'])
+        return RealRun(p['bad'], p['pos'], p['json'], p.get('verbose', False))
     raise KeyError(name)
 
 
